@@ -196,45 +196,48 @@ Definition act_cancel_aclose (r : rs) : rs :=
 Definition status (t : nat) (r : rs) : Z :=
   if task_idle t r then nth t (r_res r) 0%Z else 1%Z.
 
-Definition snapshot (n : nat) (r : rs) : sx :=
-  L [of_nat (buf_size (a_buf (r_a r))); of_nat (length (w_deque (a_w (r_a r)))); of_bool (w_paused (a_w (r_a r)));
+Definition snapshot (obs : bool) (n : nat) (r : rs) : sx :=
+  L [of_nat (buf_size (a_buf (r_a r))); of_nat (if obs then length (w_deque (a_w (r_a r))) else 0); of_bool (w_paused (a_w (r_a r)));
      L (map (fun t => A (status t r)) (seq 0 n))].
 
-Fixpoint replay (fuel n : nat) (acts : list sx) (r : rs) (snaps : list sx) : rs * list sx :=
+Fixpoint replay (obs : bool) (fuel n : nat) (acts : list sx) (r : rs) (snaps : list sx) : rs * list sx :=
   match acts with
   | [] => (r, rev snaps)
   | a :: acts' =>
       let k0 := Z.eqb (r_kind r) 0 in
       match a with
-      | L [A 0%Z; A t] => replay fuel n acts' (act_send (Z.to_nat t) 0 0 r) snaps
-      | L [A 0%Z; A t; A m; A k] => replay fuel n acts' (act_send (Z.to_nat t) (Z.to_nat m) (Z.to_nat k) r) snaps
-      | L [A 1%Z] => replay fuel n acts' (apply_w wfc_pause r) snaps
-      | L [A 1%Z; A k] => replay fuel n acts' (act_ready (Z.to_nat k) r) snaps
-      | L [A 2%Z] => replay fuel n acts' (apply_w wfc_resume r) snaps
+      | L [A 0%Z; A t] => replay obs fuel n acts' (act_send (Z.to_nat t) 0 0 r) snaps
+      | L [A 0%Z; A t; A m; A k] => replay obs fuel n acts' (act_send (Z.to_nat t) (Z.to_nat m) (Z.to_nat k) r) snaps
+      | L [A 1%Z] => replay obs fuel n acts' (apply_w wfc_pause r) snaps
+      | L [A 1%Z; A k] => replay obs fuel n acts' (act_ready (Z.to_nat k) r) snaps
+      | L [A 2%Z] => replay obs fuel n acts' (apply_w wfc_resume r) snaps
       | L [A 3%Z; A e] =>
-          if k0 then replay fuel n acts' (apply_w (wfc_lost (Z.eqb e 1)) r) snaps
-          else replay fuel n acts' (act_kill (Z.eqb e 1) r) snaps
-      | L [A 4%Z; A b] => replay fuel n acts' (apply_w (wfc_closing (Z.eqb b 1)) r) snaps
-      | L [A 4%Z] => replay fuel n acts' (act_close r) snaps
-      | L [A 5%Z; A t] => replay fuel n acts' (act_cancel (Z.to_nat t) r) snaps
-      | L [A 8%Z] => replay fuel n acts' (act_aclose r) snaps
-      | L [A 9%Z] => replay fuel n acts' (act_cancel_aclose r) snaps
-      | L [A 6%Z] => let r' := proc_n (length (r_ready r)) r in replay fuel n acts' r' (snapshot n r' :: snaps)
-      | L [A 7%Z] => let r' := settle fuel r in replay fuel n acts' r' (snapshot n r' :: snaps)
+          if k0 then replay obs fuel n acts' (apply_w (wfc_lost (Z.eqb e 1)) r) snaps
+          else replay obs fuel n acts' (act_kill (Z.eqb e 1) r) snaps
+      | L [A 4%Z; A b] => replay obs fuel n acts' (apply_w (wfc_closing (Z.eqb b 1)) r) snaps
+      | L [A 4%Z] => replay obs fuel n acts' (act_close r) snaps
+      | L [A 5%Z; A t] => replay obs fuel n acts' (act_cancel (Z.to_nat t) r) snaps
+      | L [A 8%Z] => replay obs fuel n acts' (act_aclose r) snaps
+      | L [A 9%Z] => replay obs fuel n acts' (act_cancel_aclose r) snaps
+      | L [A 6%Z] => let r' := proc_n (length (r_ready r)) r in replay obs fuel n acts' r' (snapshot obs n r' :: snaps)
+      | L [A 7%Z] => let r' := settle fuel r in replay obs fuel n acts' r' (snapshot obs n r' :: snaps)
       | _ => (set_bad r, rev snaps)
       end
   end.
 
 Definition run (i : sx) : sx :=
   match i with
-  | L (A kind :: cfg :: A nt :: L acts :: _) =>
+  | L (A kind :: cfg :: A nt :: L acts :: rest) =>
+      (* 5th field A 0: the waiter deque is not observable in this implementation (private attribute renamed): its
+         length is reported as 0 on both sides *)
+      let obs := match rest with A 0%Z :: _ => false | _ => true end in
       let n := Z.to_nat nt in
       let c := match cfg with
                | L [A h; A l; A wl] => mkCfg (Z.to_nat h) (Z.to_nat l) (Z.eqb wl 1)
                | _ => mkCfg 0 0 true
                end in
       let r0 := mkRs kind (ad_init c n) [] (repeat None (S n)) (repeat false (S n)) (repeat 0%Z n) false in
-      let '(r, snaps) := replay (8 + 4 * length acts) n acts r0 [] in
+      let '(r, snaps) := replay obs (8 + 4 * length acts) n acts r0 [] in
       if r_bad r then bad_input else L snaps
   | _ => bad_input
   end.
